@@ -109,8 +109,11 @@ func profileConfig(p string, seed uint64) RunConfig {
 		c.NoPeek = true
 	case "C18":
 		c.Interpose = false
-		c.KernLatency = pick(r, 1, 2, 5)
+		c.KernLatency = pick(r, 0, 1, 7, 40)
 		c.Knobs = map[string]int{"REPORT_CHANNEL_LEN": pick(r, 2, 4, 8, 128), "EVENT_CHANNEL_LEN": pick(r, 4, 8, 16, 512)}
+		c.Steps = 15 + r.IntN(30)
+		c.NSMF = 1 + r.IntN(2)
+		c.PSFirst = pick(r, 0, 90, 100)
 	}
 	return c
 }
@@ -188,7 +191,9 @@ func newGen(s *Sim) *Gen {
 		g.w = map[string]int{"hb": 2, "est": 8, "mod": 8, "del": 2, "dup": 3, "krep": 6, "kbuf": 4, "adv": 5, "ans": 3}
 	case "C18":
 		g.perioOK = true
-		g.w = map[string]int{"est": 10, "mod": 2, "adv": 6, "krepburst": 4, "reassoc": 3, "del": 2, "hb": 1}
+		g.mass = 1
+		g.massPeriod = 1
+		g.w = map[string]int{"est": 14, "modurr": 2, "advshort": 6, "krepburst": 4, "reassoc": 3, "del": 3, "hb": 2}
 	case "C07":
 		g.mode = "wild"
 		g.perioOK = true
@@ -915,8 +920,28 @@ func (g *Gen) one() (Action, bool) {
 			f.Late = false
 		}
 		return Action{Op: "fault", Fault: f}, true
-	case "krep", "krepbad", "krepburst":
+	case "krep", "krepbad":
 		return g.krep()
+	case "krepburst", "armburst":
+		// one report for (almost) every live session, raw SEIDs so that sessions no slot
+		// points at any more are included
+		var items []KRepItem
+		for _, up := range g.s.model.liveSEIDs() {
+			x := g.s.model.sess[up]
+			urrs := sortedRefs(x.Req, "urr")
+			if len(urrs) == 0 || g.chance(0.1) {
+				continue
+			}
+			items = append(items, KRepItem{Slot: -1, SEID: up, URR: urrs[g.intn(len(urrs))], Cause: 2})
+		}
+		if len(items) == 0 {
+			return Action{}, false
+		}
+		op := "krep"
+		if g.chance(0.5) {
+			op = "armburst"
+		}
+		return Action{Op: op, KRep: items}, true
 	case "kbuf", "kbufburst", "kbufbad", "kbufnocp":
 		return g.kbuf()
 	case "ans":
